@@ -735,6 +735,9 @@ func configs() []config {
 		{Name: "collection/writable=a", Writable: "a"},
 		{Name: "collection/first-generated-id-taken", Initial: collide},
 		{Name: "collection/all-generated-ids-taken", Initial: all},
+		// the id interceptor and id generation together: the first candidate is taken - under the
+		// intercepted (lower-case) form only
+		{Name: "collection/lower-case-ids/first-generated-id-taken", Lower: true, Initial: map[string]val{strings.ToLower(first): {5, "taken"}}},
 	}
 }
 
